@@ -596,17 +596,81 @@ EXPECT_CLIKE: T.Dict[str, T.Tuple[bool, str]] = {
 }
 
 
+# ---- documentation-level reference classifier (plain Python, no `re`, nothing read from the live classes).
+# Written from the property text and the comments of the classes:
+#   * once-only: `-lfoo`, the documented dedup1 prefixes and arguments, a *library file* -- a name ending in
+#     .lib/.dll/.so/.dylib/.a, or "a .so of the form path/to/libfoo.so.0.1.0": a path with a component that starts
+#     with `lib`, ending in `.so` followed by at most three dot-separated numeric components of any length;
+#   * override-type: the documented dedup2 prefixes (`-I -isystem -L -D -U` for C-like, `-I` for D);
+#   * prepend-type: `-I`, `-L` (C-like and D);
+#   * an argument that *is* one of those prefixes is defined by what follows it and is never de-duplicated.
+DIGITS = '0123456789'
+DOC_SUFFIXES = ('.lib', '.dll', '.so', '.dylib', '.a')
+DOC_TABLES: T.Dict[str, T.Dict[str, T.Tuple[str, ...]]] = {
+    'base': {'prepend': (), 'dedup2_prefixes': (), 'dedup1_prefixes': (), 'dedup1_args': ()},
+    'clike': {'prepend': ('-I', '-L'), 'dedup2_prefixes': ('-I', '-isystem', '-L', '-D', '-U'),
+              'dedup1_prefixes': ('-l', '-Wl,-l', '-Wl,-rpath,', '-Wl,-rpath-link,'),
+              'dedup1_args': ('-c', '-S', '-E', '-pipe', '-pthread', '-Wl,--export-dynamic')},
+    'd': {'prepend': ('-I', '-L'), 'dedup2_prefixes': ('-I',), 'dedup1_prefixes': (), 'dedup1_args': ()},
+}
+# arguments on which the documentation-level reference and the unchanged HEAD legitimately differ: one entry per
+# (class, argument), never a family
+DOC_EXCLUSIONS: T.Set[T.Tuple[str, str]] = set()
+
+
+def numeric_tail_heads(t: str) -> T.List[str]:
+    """`t` with 0, 1, 2, 3 trailing `.<digits>` components removed (as far as they exist)"""
+    parts = t.split('.')
+    out = [t]
+    for k in (1, 2, 3):
+        if len(parts) - k < 1:
+            break
+        c = parts[len(parts) - k]
+        if not c or any(ch not in DIGITS for ch in c):
+            break
+        out.append('.'.join(parts[:len(parts) - k]))
+    return out
+
+
+def doc_versioned_so(a: str) -> bool:
+    """path/to/libfoo.so[.N[.N[.N]]]: some path component starts with `lib`, no line break after it"""
+    for t in ([a, a[:-1]] if a.endswith('\n') else [a]):
+        for head in numeric_tail_heads(t):
+            if not head.endswith('.so'):
+                continue
+            stem = head[:-3]
+            for i in range(len(stem) - 2):
+                if stem.startswith('lib', i) and (i == 0 or stem[i - 1] in '/\\') and '\n' not in stem[i:]:
+                    return True
+    return False
+
+
+def doc_library_like(a: str) -> bool:
+    """what `to_native` puts inside --start-group/--end-group: a shared library file that is not passed through
+    `-Wl,`, a `-l`/`-Wl,-l` argument, a static archive"""
+    ends = [a, a[:-1]] if a.endswith('\n') else [a]
+    if not a.startswith('-Wl,'):
+        for t in ends:
+            if '\n' not in t and any(h.endswith('.so') for h in numeric_tail_heads(t)):
+                return True
+    if a.startswith('-l') or a.startswith('-Wl,-l'):
+        return True
+    return any(t.endswith('.a') for t in ends)
+
+
 def ref_kind(cls, cname: str, a: str) -> T.Tuple[bool, str]:
-    if cname == 'clike' and a in EXPECT_CLIKE:
-        return EXPECT_CLIKE[a]
-    prepend = any(a.startswith(p) for p in cls.prepend_prefixes)
-    if a in cls.dedup1_prefixes or a in cls.dedup2_prefixes:
+    doc = DOC_TABLES.get(cname)
+    if doc is None or (cname, a) in DOC_EXCLUSIONS:
+        # a class the documentation above does not know (found reflectively): its own attributes, our reading
+        doc = {'prepend': tuple(cls.prepend_prefixes), 'dedup2_prefixes': tuple(cls.dedup2_prefixes),
+               'dedup1_prefixes': tuple(cls.dedup1_prefixes), 'dedup1_args': tuple(cls.dedup1_args)}
+    prepend = any(a.startswith(p) for p in doc['prepend'])
+    if a in doc['dedup1_prefixes'] or a in doc['dedup2_prefixes']:
         return prepend, 'N'
-    if a in cls.dedup2_args or any(a.startswith(p) for p in cls.dedup2_prefixes) or \
-            any(a.endswith(s) for s in cls.dedup2_suffixes):
+    if any(a.startswith(p) for p in doc['dedup2_prefixes']):
         return prepend, 'O'
-    if a in cls.dedup1_args or any(a.startswith(p) for p in cls.dedup1_prefixes) or \
-            any(a.endswith(s) for s in cls.dedup1_suffixes) or cls.dedup1_regex.search(a):
+    if a in doc['dedup1_args'] or any(a.startswith(p) for p in doc['dedup1_prefixes']) or \
+            any(a.endswith(sfx) for sfx in DOC_SUFFIXES) or doc_versioned_so(a):
         return prepend, 'U'
     return prepend, 'N'
 
@@ -649,7 +713,7 @@ def ref_native(cname: str, gnu: bool, dirs: bool, L: T.List[str]) -> T.List[str]
     from mesonbuild.compilers.mixins import clike
     out = list(L)
     if gnu:
-        libs = [i for i, a in enumerate(out) if clike.GROUP_FLAGS.search(a)]
+        libs = [i for i, a in enumerate(out) if doc_library_like(a)]
         if len(libs) >= 2 and libs[-1] > libs[0]:
             out.insert(libs[-1] + 1, '-Wl,--end-group')
             out.insert(libs[0], '-Wl,--start-group')
@@ -1122,8 +1186,9 @@ def _check_case(ctx: Ctx, cl, case: Case, with_oracle: bool = True) -> T.Tuple[s
     return script_line(case.cname, case.gnu, case.dirs, case.script), ans, nontriv
 
 
-def kind_checks(ctx: Ctx, cl, strings: T.List[str]) -> T.List[T.Tuple[str, str, str]]:
-    """classification stream: (`class`/`gf` line, implementation answer, description)"""
+def kind_checks(ctx: Ctx, cl, strings: T.List[str]) -> T.List[T.Tuple[str, str, T.Tuple[str, str, str]]]:
+    """classification stream: (`class`/`gf` line, implementation answer, (kind, description, argument)); every live
+    classification is judged against the documentation-level reference"""
     from mesonbuild.compilers.mixins import clike
     from mesonbuild.arglist import Dedup
     show = {Dedup.NO_DEDUP: 'N', Dedup.UNIQUE: 'U', Dedup.OVERRIDDEN: 'O'}
@@ -1131,18 +1196,73 @@ def kind_checks(ctx: Ctx, cl, strings: T.List[str]) -> T.List[T.Tuple[str, str, 
     for s in strings:
         for cname, cls in cl.items():
             d, p = cls._can_dedup(s), cls._should_prepend(s)
-            out.append((f'class {cname}|{e_item(s)}', show[d] + str(int(bool(p))), f'class {cname} {s!r}'))
+            out.append((f'class {cname}|{e_item(s)}', show[d] + str(int(bool(p))), ('kind', f'class {cname} {s!r}', s)))
             want = ref_kind(cls, cname, s)
             if (bool(p), show[d]) != want:
-                ctx.violation(f'{cname}:kind:{s}', f'{s!r} is classified {show[d]}/prepend={bool(p)}, the contract says '
-                              f'{want[1]}/prepend={want[0]}', {'class': cname, 'arg': s})
-        out.append((f'gf {e_item(s)}', str(int(bool(clike.GROUP_FLAGS.search(s)))), f'gf {s!r}'))
+                ctx.tag('kind-mismatch')
+                if _KIND_REPORTS[0] < 2:        # the first ones in full: the classification and what it does to a repeat
+                    _KIND_REPORTS[0] += 1
+                    demo = cls(stub_compiler(False, False), ['-O2', s])
+                    demo += [s, s]
+                    got = list(demo)
+                    ref = ref_add(lambda x: ref_kind(cls, cname, x), ['-O2', s], [s, s])
+                    ctx.violation(f'{cname}:kind:{s}', f'{s!r} is classified {show[d]}/prepend={bool(p)}, the contract says '
+                                  f'{want[1]}/prepend={want[0]}; [-O2, {s}] += [{s}, {s}] gives {got}, eager meaning {ref}',
+                                  {'class': cname, 'arg': s, 'script': [('new', ['-O2', s]), ('on', 0, 'iadd', [s, s]), ('on', 0, 'iter')],
+                                   'impl': got, 'reference': ref})
+                    rejudge(ctx, cl, cname, s)
+        g = bool(clike.GROUP_FLAGS.search(s))
+        out.append((f'gf {e_item(s)}', str(int(g)), ('kind', f'gf {s!r}', s)))
+        if g != doc_library_like(s):
+            ctx.violation(f'clike:group-kind:{s}', f'{s!r}: to_native treats it as library-like={g}, the contract says '
+                          f'{doc_library_like(s)}', {'class': 'clike', 'arg': s})
     return out
+
+
+_KIND_REPORTS = [0]
+
+
+def rejudge(ctx: Ctx, cl, cname: str, a: str) -> None:
+    """what a (mis)classified argument does on the real class: two occurrences, under the eager-reference oracle"""
+    for sc in ([('new', []), ('on', 0, 'iadd', [a, a]), ('on', 0, 'iter')],
+               [('new', [a]), ('on', 0, 'iadd', [a]), ('on', 0, 'iter')],
+               [('new', ['-O2', a]), ('on', 0, 'iadd', [a, '-O2']), ('on', 0, 'iter'), ('on', 0, 'nat', 1)]):
+        check_case(ctx, cl, Case(cname, True, False, sc, 'rejudge'))
+
+
+def boundary_pool(cl) -> T.List[str]:
+    """spellings on both sides of every alternative of the live classification regexes and tuples"""
+    out: T.List[str] = []
+    vers = ['', '.1', '.10', '.100', '.1.2', '.12.3', '.1.2.3', '.74.2.1', '.1.83.0', '.1.2.3.4', '.12.3.45.6', '.', '.1.', '..1', '.1a',
+            '.a', '.1.a', '.01.002', '.-1']
+    dirs = ['', 'dir/', '/usr/lib64/', 'C:\\d\\', 'libdir/', './', 'a\nb/']
+    names = ['libfoo', 'lib', 'foo', 'xlibfoo', 'Libfoo', 'LIBFOO', 'lib foo', 'lib\nfoo', 'libfoo.so.1.bar', 'libfoo.so.bar']
+    for d in dirs:
+        for n in names:
+            for so in ('.so', '.SO', '.sox', '.s', 'so', ''):
+                for v in (vers if so == '.so' else vers[:4]):
+                    out.append(d + n + so + v)
+    for a in ('/usr/lib64/libcrypto.so.10', 'libicuuc.so.74.2', 'libboost_system.so.1.83.0', 'libz.so.1\n', 'libz.so.10\n',
+              'libz.so.1.2.3.4\n', '-Wl,libq.so.10', '-Wl,/x/libq.so', 'libq.so.10,x'):
+        out.append(a)
+    for cls in cl.values():
+        tuples = (list(cls.prepend_prefixes) + list(cls.dedup2_prefixes) + list(cls.dedup1_prefixes) + list(cls.dedup1_args) +
+                  list(cls.dedup2_args) + list(cls.always_dedup_args))
+        for t in tuples:
+            out += [t, t + 'x', t + '/abs', 'x' + t, ' ' + t, t.upper(), t.lower(), t[:-1], t + t, t + '=v', t + ' v']
+        for sfx in list(cls.dedup1_suffixes) + list(cls.dedup2_suffixes):
+            out += [sfx, 'x' + sfx, 'x' + sfx + 'x', 'x' + sfx.upper(), 'x' + sfx + '.1', 'x' + sfx[:-1], 'libx' + sfx + '.10', 'x' + sfx + '\n',
+                    '-Wl,x' + sfx]
+    for t in ('-I', '-L', '-D', '-U', '-isystem', '-l', '-Wl,-l', '-Wl,-rpath,', '-Wl,-rpath-link,', '-c', '-S', '-E', '-pipe',
+              '-pthread', '-Wl,--export-dynamic', '-lm', '-lc'):
+        out += [t, t + 'x', 'x' + t, t.upper(), t.lower(), t[:-1], t + '=v']
+    return list(dict.fromkeys(out))
 
 
 def run(ctx: Ctx) -> None:
     cl = classes()
     rng = ctx.rng
+    _KIND_REPORTS[0] = 0
     ctx.rule = ('(plus an aliasing stream: 2-3 objects built from / fed with the same caller-owned list objects, the caller '
                 'changing them in between, with a frame oracle after every operation; plus one end-to-end meson setup of targets '
                 'with 3-4 sources per language) corpus scripts first; every operation sequence of length <=2 over a 10-argument alphabet (3 initial '
@@ -1161,20 +1281,21 @@ def run(ctx: Ctx) -> None:
         t = tables_of(cls)
         lines.append(f'tables {cname}')
         impl.append('/'.join(e_list(t[k]) for k, _ in TABLE_FIELDS))
-        desc.append(('tables', cname))
+        desc.append(('tables', cname, None))
 
     # -- classification stream
-    strings = list(dict.fromkeys(ALPHA_CLIKE + WEIRD + sum((table_alpha(c) for c in cl.values()), [])))
+    pool = boundary_pool(cl)
+    strings = list(dict.fromkeys(ALPHA_CLIKE + WEIRD + pool + sum((table_alpha(c) for c in cl.values()), [])))
     for _ in range(ctx.scale(4000, 30000)):
         strings.append(''.join(rng.choice(FRAGS) for _ in range(rng.randint(1, 7))))
     for ln, ans, d in kind_checks(ctx, cl, list(dict.fromkeys(strings))):
         lines.append(ln)
         impl.append(ans)
-        desc.append(('kind', d))
+        desc.append(d)
         ctx.tag('kind:' + ln.split(' ')[0] + ':' + ans)
 
     # -- scripts (generated lazily: a run that has found failing inputs stops early)
-    alphas = {c: list(dict.fromkeys(ALPHA_CLIKE + table_alpha(cl[c]))) for c in cl}
+    alphas = {c: list(dict.fromkeys(ALPHA_CLIKE + table_alpha(cl[c]) + rng.sample(pool, min(len(pool), 60)))) for c in cl}
 
     def gen_cases() -> T.Iterator[Case]:
         for cname, script in CORPUS:
@@ -1189,6 +1310,12 @@ def run(ctx: Ctx) -> None:
         for sc in probe_scripts(list(dict.fromkeys(ALPHA_SMALL + sum((table_alpha(c) for c in cl.values()), [])))[:60]):
             for cname in cl:
                 yield Case(cname, True, False, sc, 'probe')
+        spool = pool if ctx.deep else list(dict.fromkeys(pool[::4] + [x for x in pool if x.startswith(('/usr/lib64/libcrypto', 'libicuuc', 'libboost'))]))
+        for a in spool:                     # every boundary spelling (quick: every 4th, versions and names still all covered): two occurrences in one batch / in two / after the list
+            for cname in cl:
+                yield Case(cname, True, False, [('new', []), ('on', 0, 'iadd', [a, a]), ('on', 0, 'iter'), ('on', 0, 'nat', 1)], 'boundary')
+                yield Case(cname, False, False, [('new', [a, '-O2']), ('on', 0, 'iadd', [a]), ('on', 0, 'iadd', ['-O2', a]), ('on', 0, 'iter')],
+                           'boundary')
         inits = [[], ['-Ia', '-Dx', '-lfoo', '-O2'], ['-Dx', 'x.a', '-Dx', 'x.a', '-La']]
         for sc in exhaustive_scripts(ctx, ALPHA_SMALL[:ctx.scale(10, 12)], 2, inits):
             yield Case('clike', True, False, sc, 'exhaustive2')
@@ -1244,7 +1371,8 @@ def run(ctx: Ctx) -> None:
                     ctx.disagreement({'kind': 'script', 'class': d.cname, 'gnu': d.gnu, 'dirs': d.dirs, 'script': d.script,
                                       'impl': a_impl, 'model': a_model})
                 else:
-                    ctx.disagreement({'kind': d[0], 'input': d[1], 'impl': a_impl, 'model': a_model})
+                    ctx.disagreement({'kind': d[0], 'input': d[1], 'arg': d[2] if len(d) > 2 else None,
+                                      'impl': a_impl, 'model': a_model})
         # table obligation, evaluated by the model on the regenerated tables
         oks = ctx.driver('arglist', [f'tablesok {c}' for c in cl])
         for cname, r in zip(cl, oks):
@@ -1306,17 +1434,22 @@ def search(ctx: Ctx, disagreements: T.List[dict]) -> None:
                 scripts.append((d['class'], sc[:k]))
             for k in range(1, len(sc)):
                 scripts.append((d['class'], sc[:k] + sc[k + 1:]))
-        elif d.get('kind') == 'kind':
-            m = d['input']
-            import ast as _ast
-            try:
-                seeds.append(_ast.literal_eval(m[m.index("'") if "'" in m else m.index('"'):]))
-            except Exception:
-                pass
+        elif d.get('kind') == 'kind' and isinstance(d.get('arg'), str):
+            seeds.append(d['arg'])
     for c in cl.values():
         seeds += table_alpha(c)
     seeds = list(dict.fromkeys(seeds))[:120]
     before = len(ctx.violations)
+    # every classifier disagreement is re-judged on the real class: two occurrences of the argument, under the oracle
+    for d in disagreements:
+        if d.get('kind') == 'kind' and isinstance(d.get('arg'), str):
+            a = d['arg']
+            _KIND_REPORTS[0] = 0
+            kind_checks(ctx, cl, [a])
+            for cname in cl:
+                rejudge(ctx, cl, cname, a)
+    if len(ctx.violations) > before:
+        return
     for cname, sc in scripts:
         try:
             check_case(ctx, cl, Case(cname, True, True, sc, 'search'))
